@@ -2058,7 +2058,10 @@ def correspond_model(ctx, cases_data, tmpdir, mode: str) -> None:
     tie (ii): the Lean builder model on the same abstract inputs against the real bytes —
     mode 'structure' (C12): header, table (names, types, positions, sizes), block skeletons (tags, shapes,
     field names, string lengths, element counts) must be identical;
-    mode 'content' (C13): every block, looked up by name, must be identical (values bitwise, strings)."""
+    mode 'content' (C13): every block, looked up by name, must be identical (values bitwise, strings);
+    mode 'bytes' (C12, DESIGN tie (ii)): the whole file must be identical byte for byte; the only inputs taken from
+    the real file are the two time stamp strings, read from their decoded fields (main header `creation_date`,
+    histogram metadata `creation_date_str`) and handed to the model."""
     lines = []
     meta = []
     for case, data in cases_data:
@@ -2100,6 +2103,21 @@ def correspond_model(ctx, cases_data, tmpdir, mode: str) -> None:
             # the real file violates the container format (reported, with a key, by the direct oracle, which
             # decodes every file); the model cannot express a malformed file, so there is nothing to compare
             ctx.count('lean:real-file-undecodable:left-to-oracle')
+        elif mode == 'bytes':
+            j = next((k for k in range(min(len(data), len(model_bytes))) if data[k] != model_bytes[k]),
+                     min(len(data), len(model_bytes)))
+            where = 'header/table'
+            try:
+                f = decode_file(data)
+                for d in f['descs']:
+                    if d['pos'] <= j < d['pos'] + d['size']:
+                        where = f"block {d['n0'].decode('utf-8', 'replace')}/{d['n1'].decode('utf-8', 'replace')}"
+            except DecodeError:
+                pass
+            ctx.disagree({**brief, 'first_difference_at_byte': j, 'in': where},
+                         f'{len(data)} bytes, …{data[max(0, j - 12):j + 12].hex()}…',
+                         f'{len(model_bytes)} bytes, …{model_bytes[max(0, j - 12):j + 12].hex()}…',
+                         'file written by the real builder differs from the bytes of the Lean builder model')
         elif mode == 'structure':
             a, b = skeleton(dp), skeleton(decode_dump(model_bytes))
             if a != b:
